@@ -60,14 +60,14 @@ RULE = (
 BOUNDS = {
     "quick": {
         "bfs_layouts": "P<=3: all 399 layouts (plate sizes 1-2 x value kinds), one row order each",
-        "reveal_list_len": 2, "unknown_ids": 1, "interleave": "alternating per layout",
+        "reveal_list_len": 2, "unknown_ids": ["P", -1], "interleave": "alternating per layout",
         "cli_layouts": "P<=2 with size-1 plates (12) + 6 hand-picked (P=2 with a size-2 plate, P=3)",
         "ctor_rows": 5, "setobs_rows": 4, "max_states_per_layout": "8 * 2^P (never hit)",
     },
     "thorough": {
         "bfs_layouts": "P<=3: all 399 layouts, both row orders where a size-2 plate exists; P=4: all 81 with size-1 "
                        "plates + all 432 with exactly one size-2 plate",
-        "reveal_list_len": 2, "unknown_ids": 1, "interleave": "both",
+        "reveal_list_len": 2, "unknown_ids": ["P", -1], "interleave": "both",
         "cli_layouts": "all P<=2 layouts (56) + P=3 with three size-1 plates (27)",
         "ctor_rows": 5, "setobs_rows": 5, "max_states_per_layout": "8 * 2^P (never hit)",
     },
@@ -459,7 +459,7 @@ class St:
 
 
 def reveal_lists(P, lo):
-    ids = list(range(P + 1))  # id P is unknown
+    ids = list(range(P + 1)) + [-1]  # ids P and -1 are unknown (-1 must not wrap around to the last plate)
     out = []
     for k in range(lo, 3):
         out.extend([list(t) for t in itertools.product(ids, repeat=k)])
